@@ -148,7 +148,7 @@ def expected_since(msgs, earlier_rewinds=(), problems=None):
     return since
 
 
-def oracle(obs):
+def oracle(obs, helper_msg=lambda m: False):
     tags = []
     for c in obs.calls:
         if c["api"] in ("call", "resume") and c["outcome"] == "exc" and c["exc_type"] not in ("RunEngineInterrupted",):
@@ -184,7 +184,7 @@ def oracle(obs):
                 tags.append("replayed-in-wrong-order")
             else:
                 tags.append("replayed-a-message-from-before-the-last-checkpoint-or-a-non-replayable-one")
-        elif stack and m.command not in HELPER:
+        elif stack and m.command not in HELPER and not helper_msg(m):
             tags.append("plan-continued-before-the-replay-finished")
         seen.add(id(m))
     expected_since(msgs, set(rewind_at), tags)
